@@ -742,6 +742,12 @@ pub fn contexts(conds: bool) -> Vec<Box<dyn Fn(&P) -> P>> {
         Box::new(move |x| cat(vec![star(Any), x.clone()])),
         Box::new(move |x| cat(vec![rep(Any, 0, None, Mode::Lazy), empty_la(), x.clone()])),
         Box::new(move |x| look("=", cat(vec![grp(x.clone()), empty_la()]))),
+        // nested loops over possibly-empty bodies (F1 territory: explored for the tie with the model)
+        Box::new(move |x| if is_zero_width_atom(x) { x.clone() } else { cat(vec![rep(cat(vec![star(opt(x.clone())), opt(lit('b'))]), 2, Some(2), Mode::Greedy), look("!", lit('c'))]) }),
+        Box::new(move |x| if is_zero_width_atom(x) { x.clone() } else { cat(vec![rep(star(opt(x.clone())), 2, Some(2), Mode::Greedy), look("!", lit('c'))]) }),
+        Box::new(move |x| if is_zero_width_atom(x) { x.clone() } else { cat(vec![star(star(x.clone())), look("!", lit('c'))]) }),
+        Box::new(move |x| if is_zero_width_atom(x) { x.clone() } else { cat(vec![rep(cat(vec![rep(opt(x.clone()), 0, None, Mode::Lazy), lit('b')]), 1, None, Mode::Greedy), empty_la()]) }),
+        Box::new(move |x| if is_zero_width_atom(x) { x.clone() } else { cat(vec![rep(star(grp(opt(x.clone()))), 2, None, Mode::Greedy), P::Bref(1)]) }),
     ];
     let _ = (a, b, c);
     if conds {
